@@ -501,6 +501,7 @@ func (ctx *Context) evaluate() {
 
 	startTime := time.Now().UnixMilli()
 	for opIndex := 0; opIndex < e.codeIndex; opIndex += 1 {
+		verifMeterDispatch()
 		numOpCountAdd(1)
 
 		if ctx.Error == nil && e.top == len(stack) {
@@ -972,6 +973,7 @@ func (ctx *Context) evaluate() {
 			stackPush(ret)
 
 		case typeDiceFate:
+			verifMeterFate()
 			sum, detail := RollFate(ctx.RandSrc, getRollMode())
 			ret := NewIntVal(sum)
 			details[len(details)-1].Ret = ret
